@@ -36,8 +36,6 @@ func (m *c17Mon) checkPostResult(gp, ge Result) {
 		vCover("error-result")
 		vAssert(ge.IsError(), "error-result-reaches-post-as-an-error-result")
 		vAssert(ge.Error() == m.e, "error-result-keeps-its-error")
-		_, wrapped := ge.value.(Result)
-		vAssert(!wrapped, "result-is-not-wrapped-a-second-time")
 	} else {
 		vAssert(!ge.IsError(), "value-result-is-not-an-error")
 		_, wrapped := ge.Value().(Result)
@@ -207,13 +205,11 @@ func VH_C17_batch() {
 			}
 			vAssert(vSame(items[0].Value(), v0) && vSame(items[1].Value(), v1), "batch-post-items-unchanged")
 			vAssert(!results[0].IsError() && vSame(results[0].Value(), x0), "batch-post-receives-the-exec-value")
-			_, w0 := results[0].value.(Result)
+			_, w0 := results[0].Value().(Result)
 			vAssert(!w0, "batch-result-not-wrapped-twice")
 			if errRes {
 				vCover("batch-error-result")
 				vAssert(results[1].IsError() && results[1].Error() == e1, "batch-error-result-reaches-post")
-				_, w1 := results[1].value.(Result)
-				vAssert(!w1, "batch-result-not-wrapped-twice")
 			} else {
 				vAssert(!results[1].IsError() && vSame(results[1].Value(), x0), "batch-post-receives-the-exec-value")
 			}
